@@ -1800,6 +1800,10 @@ def eager_getslice_lambda(op, x):
         expr = ops.getslice(expr, tail)
     if x.var.name in expr.inputs:  # dim is preserved, e.g. x[1:]
         return Lambda(x.var, expr)
+    elif isinstance(head, slice):  # expr is constant along the dim, e.g. x[1:]
+        start, stop, step = parse_slice(head, x.var.output.size)
+        size = max(0, (stop - start + step - 1) // step)
+        return Lambda(Variable(x.var.name, Bint[size]), expr)
     else:  # dim is eliminated, e.g. x[0]
         return expr
 
